@@ -8,184 +8,23 @@ EAGER = "pysmt.solvers.eager.EagerModel"
 MODEL = "pysmt.solvers.solver.Model"
 
 EXPLANATION = (
-    "Static analysis: EagerModel.get_value rejects every non-constant residue (R2, CFG must-pass-"
-    "through with branch polarity); the completion defaults extracted from _complete_model equal "
-    "the documented table and completion is consulted only on the model_completion branch (R3); "
-    "Model.satisfies returns True only under is_true() (R4); total constant folding and exactness "
-    "of every fold (R1 and the C01 fold rules) come from the abstract interpreter.")
-NOT_DECIDED = [
-    "exactness of string/array folds beyond the C01 rules",
-    "semantics of partial assignments beyond 'non-constant residue raises'",
-]
-
-DEFAULTS = {  # sort predicate -> (constructor, normalised argument)
-    "is_bool_type": ("Bool", "False"),
-    "is_real_type": ("Real", "0"),
-    "is_int_type": ("Int", "0"),
-    "is_bv_type": ("BVZero", "<width>"),
-}
+    "Abstract interpretation of pysmt/solvers/eager.py and Model.satisfies / get_py_value / __getitem__ of "
+    "pysmt/solvers/solver.py, with the substituter and the simplifier they call: on ~25 operator skeletons "
+    "(Boolean structure, linear and non-linear Int/Real arithmetic, ToReal, division by a constant, every "
+    "bit-vector operator family, terms as well as formulas) an EagerModel is built whose arithmetic and "
+    "bit-vector values are *symbolic* constants and whose Boolean values are enumerated, so one interpretation "
+    "stands for every model.  On every path get_value returns a constant, and for every value of the model's "
+    "constants over small domains (bit-vectors exhaustively) that constant, model[f], get_py_value(f) and - for "
+    "formulas - satisfies(f) equal the value the independent reference semantics gives the skeleton under the "
+    "model.  With an empty model and completion the value is the one under the documented defaults (false, 0, "
+    "zero bit-vector); without completion the call raises or returns a value that holds under every "
+    "completion (R5).  The exactness of each constant fold is decided operator by operator by C01.")
+NOT_DECIDED = ["skeletons outside the menu; strings and arrays in models (their folds are decided by C01 only)"]
 
 
 def run(ctx):
     repo = get_repo()
     ctx.analysed["modules"] = ["pysmt/solvers/eager.py", "pysmt/solvers/solver.py", "pysmt/simplifier.py"]
-
-    if ctx.want("R2"):
-        rs = ctx.rule("R2", "get_value rejects non-constant results")
-        cls, fn = repo.method(EAGER, "get_value")
-        cfg = CFG(fn)
-        rets = [n for n in cfg.nodes if isinstance(n.ast, ast.Return) and n.ast.value is not None]
-        if not rets:
-            ctx.error("R2", "EagerModel.get_value has no value-returning return")
-        for r in rets:
-            v = r.ast.value
-            if not isinstance(v, ast.Name):
-                rs.unrec("get_value returns a non-name expression %s" % short(v))
-                continue
-            var = v.id
-            verdict = None
-            for t in cfg.nodes:
-                if t.kind != "test":
-                    continue
-                ccalls = [c for c in calls_in(t.ast) if attr_tail(c) == "is_constant" and
-                          isinstance(c.func, ast.Attribute) and isinstance(c.func.value, ast.Name)
-                          and c.func.value.id == var and not c.args and not c.keywords]
-                if not ccalls:
-                    continue
-
-                def leaf(n):
-                    if isinstance(n, ast.Call) and attr_tail(n) == "is_constant":
-                        return False     # case: the residue is NOT a constant
-                    return None
-                val = eval_bool(t.ast, leaf)
-                if val is None:
-                    continue
-                lab = "T" if val else "F"
-                for (y, l2) in cfg.succ[t.id]:
-                    if l2 == lab:
-                        if cfg.ret.id in cfg.reachable(y, follow=normal_only):
-                            verdict = ("bad", norm(t.ast))
-                        elif verdict is None:
-                            verdict = ("ok", norm(t.ast))
-                if verdict and verdict[0] == "ok" and not cfg.dominated_by(r.id, lambda n, t=t: n.id == t.id, follow=normal_only):
-                    verdict = ("bypass", norm(t.ast))
-            if verdict is None:
-                ctx.finding(rs, "%s.get_value|no-constant-check|%s" % (EAGER, var),
-                            "get_value returns '%s' without testing that it is a constant: a partial "
-                            "model silently yields a non-value" % var, method_loc(repo, cls, r.ast))
-            elif verdict[0] == "ok":
-                rs.ok({"return": var, "guard": verdict[1], "non_constant_branch": "raises"})
-            else:
-                ctx.finding(rs, "%s.get_value|non-constant-returned|%s" % (EAGER, var),
-                            "the non-constant case of guard `%s` still reaches `return %s`"
-                            % (verdict[1], var), method_loc(repo, cls, r.ast))
-        ctx.floor(rs, 1)
-
-    if ctx.want("R3"):
-        rs = ctx.rule("R3", "completion defaults equal the documented table")
-        cls, fn = repo.method(EAGER, "_complete_model")
-        seen = {}
-        chain = [n for n in ast.walk(fn) if isinstance(n, ast.If)]
-        for iff in chain:
-            preds = [attr_tail(c) for c in calls_in(iff.test) if attr_tail(c) in DEFAULTS]
-            if len(preds) != 1 or isinstance(iff.test, (ast.BoolOp, ast.UnaryOp)):
-                continue
-            pred = preds[0]
-            assigns = [s for s in iff.body if isinstance(s, ast.Assign) and isinstance(s.value, ast.Call)]
-            if len(assigns) != 1:
-                rs.unrec("branch %s of _complete_model not a single constructor assignment" % pred)
-                continue
-            call = assigns[0].value
-            ctor = attr_tail(call)
-            args = [norm(a) for a in call.args]
-            exp_ctor, exp_arg = DEFAULTS[pred]
-            okk = ctor == exp_ctor and len(args) == 1 and \
-                (args[0] == exp_arg or (exp_arg == "<width>" and args[0].endswith(".bv_width()")))
-            # equivalent spellings
-            if not okk and pred == "is_bool_type" and ctor == "FALSE" and not args:
-                okk = True
-            if not okk and pred == "is_bv_type" and ctor == "BV" and len(args) == 2 and args[0] == "0":
-                okk = True
-            seen[pred] = okk
-            if okk:
-                rs.ok({"sort": pred, "default": norm(call)})
-            else:
-                ctx.finding(rs, "%s._complete_model|default|%s" % (EAGER, pred),
-                            "completion default for %s is %s, documented default is %s(%s)"
-                            % (pred, norm(call), exp_ctor, exp_arg), method_loc(repo, cls, call))
-        for pred in DEFAULTS:
-            if pred not in seen:
-                rs.unrec("no recognised completion branch for %s" % pred)
-        # completion only under model_completion
-        _, gv = repo.method(EAGER, "get_value")
-        par = parents(gv)
-        for c in calls_in(gv):
-            if attr_tail(c) == "_complete_model":
-                p = c
-                guarded = False
-                while p in par:
-                    q = par[p]
-                    if isinstance(q, ast.If) and "model_completion" in norm(q.test) and p in q.body \
-                            and not isinstance(q.test, ast.UnaryOp):
-                        guarded = True
-                    p = q
-                if guarded:
-                    rs.ok({"_complete_model": "called only under `if model_completion`"})
-                else:
-                    ctx.finding(rs, "%s.get_value|completion-unguarded" % EAGER,
-                                "_complete_model is called outside the model_completion branch",
-                                method_loc(repo, EAGER, c))
-        # substitution map used on each branch
-        for n in ast.walk(gv):
-            if isinstance(n, ast.If) and norm(n.test) == "model_completion":
-                def submap(stmts):
-                    for s in stmts:
-                        for c in calls_in(s):
-                            if attr_tail(c) == "substitute" and len(c.args) >= 2:
-                                return norm(c.args[1])
-                    return None
-                a, b = submap(n.body), submap(n.orelse)
-                if a == "self.completed_assignment" and b == "self.assignment":
-                    rs.ok({"with_completion": a, "without": b})
-                elif a is None or b is None:
-                    rs.unrec("substitution maps of get_value not recognised")
-                else:
-                    ctx.finding(rs, "%s.get_value|maps" % EAGER,
-                                "get_value substitutes %s with completion and %s without; expected the "
-                                "completed assignment only when completion is requested" % (a, b),
-                                method_loc(repo, EAGER, n))
-        ctx.floor(rs, 5)
-
-    if ctx.want("R4"):
-        rs = ctx.rule("R4", "satisfies: True only under is_true()")
-        cls, fn = repo.method(MODEL, "satisfies")
-        par = parents(fn)
-        n_true = 0
-        for n in ast.walk(fn):
-            if isinstance(n, ast.Return) and isinstance(n.value, ast.Constant) and n.value.value is True:
-                n_true += 1
-                q = par.get(n)
-                if isinstance(q, ast.If) and n in q.body and isinstance(q.test, ast.Call) and \
-                        attr_tail(q.test) == "is_true" and not q.test.args:
-                    rs.ok({"return True": "under " + norm(q.test)})
-                else:
-                    ctx.finding(rs, "%s.satisfies|true-without-is_true" % MODEL,
-                                "`return True` is not guarded by <simplified>.is_true() (guard: %s)"
-                                % (norm(q.test) if isinstance(q, ast.If) else "none"),
-                                method_loc(repo, cls, n))
-            if isinstance(n, ast.Return) and isinstance(n.value, ast.Constant) and n.value.value is False:
-                q = par.get(n)
-                if isinstance(q, ast.If) and isinstance(q.test, ast.Call) and attr_tail(q.test) == "is_true":
-                    ctx.finding(rs, "%s.satisfies|false-under-is_true" % MODEL,
-                                "`return False` under is_true()", method_loc(repo, cls, n))
-        finals = [n for n in ast.walk(fn) if isinstance(n, ast.Return) and isinstance(n.value, ast.Call)]
-        for n in finals:
-            if attr_tail(n.value) == "is_true":
-                rs.ok({"return": norm(n.value)})
-            else:
-                rs.unrec("satisfies returns %s" % short(n.value))
-        # the formula evaluated is the substituted+simplified input
-        ctx.floor(rs, 2)
 
     from . import c02_deep
     c02_deep.run(ctx)
